@@ -368,6 +368,10 @@ def run_engine(tier, seed, sizes=None):
                 stats["reconfigured_and_loaded_again_after_failure"] = stats.get("reconfigured_and_loaded_again_after_failure", 0) + int(l.split()[2])
             elif l.startswith("# memattr-catalogue "):
                 stats["memattr_catalogue_cases"] = stats.get("memattr_catalogue_cases", 0) + int(l.split()[2])
+            elif l.startswith("# userdata-catalogue "):
+                stats["userdata_catalogue_cases"] = stats.get("userdata_catalogue_cases", 0) + int(l.split()[2])
+            elif l.startswith("# late-failures "):
+                stats["late_failure_then_reconfigured_cases"] = stats.get("late_failure_then_reconfigured_cases", 0) + int(l.split()[2])
             elif l.startswith("# hugegp-skipped "):
                 stats["wf_oracle_skipped_huge_gp_index"] = stats.get("wf_oracle_skipped_huge_gp_index", 0) + int(l.split()[2])
             elif l.startswith("# distoracle "):
